@@ -160,11 +160,16 @@ def existing_under(job):
         return out
     try:
         setd(a)
-        m = parse_message('MSH|^~\\&|S|F|R|RF|2020||ADT^A01^ADT_A01|1|P|2.4\rEVN||2020\rPID|1||a^^^b&c~d\rPV1|1|I')
-        s = parse_segment('PID|1||x^y', version='2.3', validation_level=VL.TOLERANT)
-        m2 = Message('ADT_A01')                 # built under the defaults of A on purpose: must keep them
-        m2.msh.msh_7 = '2020'
-        m2.pid.pid_3 = 'q'
+        try:
+            m = parse_message('MSH|^~\\&|S|F|R|RF|2020||ADT^A01^ADT_A01|1|P|2.4\rEVN||2020\rPID|1||a^^^b&c~d\rPV1|1|I')
+            s = parse_segment('PID|1||x^y', version='2.3', validation_level=VL.TOLERANT)
+            m2 = Message('ADT_A01')                 # built under the defaults of A on purpose: must keep them
+            m2.msh.msh_7 = '2020'
+            m2.pid.pid_3 = 'q'
+        except Exception as ex:  # noqa
+            # (these constructions name their version explicitly or read it from MSH-12 and succeed under every default on the unchanged tree;
+            #  a failure here is a dependence on the defaults, reported as such by the caller)
+            return json.dumps(['construction-failed', vlib.exc_name(ex) + ': ' + str(ex)[:200]])
         before = obs([m, s, m2])
         setd(b)
         after = obs([m, s, m2])
@@ -236,7 +241,11 @@ def run(tier, seed):
     for p, r in zip(pairs, ex):
         chk.evals += 1
         b, a = json.loads(r)
-        if b != a:
+        if b == 'construction-failed':
+            chk.fail(None, {'clause': 'explicit-arguments-override-defaults', 'defaults': str(p[0]), 'raised': a,
+                            'calls': "parse_message(<MSH-12 = 2.4>); parse_segment('PID|1||x^y', version='2.3', validation_level=TOLERANT); Message('ADT_A01'); m.msh.msh_7 = '2020'; m.pid.pid_3 = 'q'"},
+                     {'api': 'constructions with explicit version / MSH-12 under other defaults', 'from': p[0], 'to': p[1]})
+        elif b != a:
             chk.fail(None, {'clause': 'changing-defaults-does-not-alter-existing-elements', 'from': str(p[0]), 'to': str(p[1]), 'before': b, 'after': a},
                      {'api': 'existing elements under a change of defaults', 'from': p[0], 'to': p[1]})
     chk.dist.update({'calls': len(calls), 'settings': len(settings), 'kinds': {k: sum(1 for c in calls if c[0] == k) for k in CALLS}})
